@@ -551,6 +551,87 @@ class Recorder final : public StepInterface
 };
 
 //---------------------------------------------------------------------------//
+// Probe: an independent user action that snapshots every slot at a given step order
+//---------------------------------------------------------------------------//
+struct ProbeSnap
+{
+    int order;  // StepActionOrder as int
+    unsigned call;  // index of the Stepper call (set by the harness through probe_call)
+    unsigned slot;
+    int status;  // TrackStatus as int
+    unsigned event, track, parent, num_steps;
+    int particle;
+    double energy, time, step_length, edep;
+    int post_action, along_action;
+    std::array<double, 3> pos, dir;
+    int volume;
+    bool outside, on_boundary;
+};
+
+struct ProbeLog
+{
+    std::vector<ProbeSnap> snaps;
+    unsigned call{0};
+};
+
+class ProbeAction final : public CoreStepActionInterface, public ConcreteAction
+{
+  public:
+    ProbeAction(ActionId id, StepActionOrder order, std::shared_ptr<ProbeLog> log)
+        : ConcreteAction(id, "verif-probe-" + std::to_string(int(order)), "verif state probe")
+        , order_(order)
+        , log_(std::move(log))
+    {
+    }
+    StepActionOrder order() const final { return order_; }
+    void step(CoreParams const& params, CoreStateHost& state) const final
+    {
+        auto const& pr = params.ref<MemSpace::host>();
+        auto const& sr = state.ref();
+        for (TrackSlotId::size_type i = 0; i < state.size(); ++i)
+        {
+            TrackSlotId ts{i};
+            ProbeSnap s{};
+            s.order = int(order_);
+            s.call = log_->call;
+            s.slot = i;
+            s.status = int(sr.sim.status[ts]);
+            if (sr.sim.status[ts] == TrackStatus::inactive)
+            {
+                log_->snaps.push_back(s);
+                continue;
+            }
+            CoreTrackView track(pr, sr, ts);
+            auto sim = track.make_sim_view();
+            auto par = track.make_particle_view();
+            auto geo = track.make_geo_view();
+            s.event = sim.event_id().unchecked_get();
+            s.track = sim.track_id().unchecked_get();
+            s.parent = sim.parent_id() ? sim.parent_id().unchecked_get() : no_id;
+            s.num_steps = sim.num_steps();
+            s.particle = int(par.particle_id().unchecked_get());
+            s.energy = par.energy().value();
+            s.time = sim.time();
+            s.step_length = sim.step_length();
+            s.post_action = sim.post_step_action() ? int(sim.post_step_action().unchecked_get()) : -1;
+            s.along_action = sim.along_step_action() ? int(sim.along_step_action().unchecked_get()) : -1;
+            s.edep = track.make_physics_step_view().energy_deposition().value();
+            s.pos = {geo.pos()[0], geo.pos()[1], geo.pos()[2]};
+            s.dir = {geo.dir()[0], geo.dir()[1], geo.dir()[2]};
+            s.outside = geo.is_outside();
+            s.on_boundary = geo.is_on_boundary();
+            s.volume = s.outside ? -1 : int(geo.volume_id().unchecked_get());
+            log_->snaps.push_back(s);
+        }
+    }
+    void step(CoreParams const&, CoreStateDevice&) const final { CELER_NOT_CONFIGURED("device"); }
+
+  private:
+    StepActionOrder order_;
+    std::shared_ptr<ProbeLog> log_;
+};
+
+//---------------------------------------------------------------------------//
 // Problem definition
 //---------------------------------------------------------------------------//
 enum class AlongStep
@@ -586,6 +667,7 @@ struct LoopConfig
                               Outcome::unchanged, Outcome::scatter_three, Outcome::annihilate};
     double lowest_electron_energy{0.02};
     bool bookkeeping{false};
+    std::vector<StepActionOrder> probes;  // orders at which a ProbeAction is inserted
     bool with_recorder{true};
     StepInterface::Filters recorder_filters{};
     StepSelection recorder_selection{StepSelection::all()};
@@ -604,6 +686,7 @@ struct LoopProblem
     std::shared_ptr<ScriptedShared> shared;
     std::shared_ptr<Recorder> recorder;
     std::shared_ptr<StepCollector> collector;
+    std::shared_ptr<ProbeLog> probe_log;
     std::shared_ptr<CoreParams const> core;
     ParticleId gamma, electron, positron;
     MaterialId mat, vacuum;
@@ -823,6 +906,15 @@ inline std::unique_ptr<LoopProblem> make_loop_problem(LoopConfig const& cfg)
             auto sc = std::make_shared<StatusChecker>(action_reg->next_id(), aux_reg->next_id());
             action_reg->insert(sc);
             aux_reg->insert(sc);
+        }
+        if (!cfg.probes.empty())
+        {
+            P->probe_log = std::make_shared<ProbeLog>();
+            for (auto ord : cfg.probes)
+            {
+                auto pa = std::make_shared<ProbeAction>(action_reg->next_id(), ord, P->probe_log);
+                action_reg->insert(pa);
+            }
         }
         auto core = std::make_shared<CoreParams>(std::move(inp));
         P->core = core;
